@@ -81,6 +81,9 @@ class Renderer:
                 self.pre.append("def %s(%s):\n    return %s\n" % (name, ", ".join(args), call))
             elif flavor == "corofunc":
                 self.pre.append("async def %s(%s):\n    return %s\n" % (name, ", ".join(args), call))
+            elif flavor == "gated":
+                self.pre.append("async def %s(%s):\n    await V.gate('cond', %d)\n    return %s\n" % (
+                    name, ", ".join(args), cid, call))
             elif flavor == "ret_coro":
                 self.pre.append("async def _%s(%s):\n    return %s\n\ndef %s(%s):\n    return _%s(%s)\n" % (
                     name, ", ".join(args), call, name, ", ".join(args), name, ", ".join(args)))
@@ -141,6 +144,9 @@ class Renderer:
                 self.pre.append("def %s(%s):\n    return %s\n" % (name, ", ".join(args), call))
             elif flavor == "corofunc":
                 self.pre.append("async def %s(%s):\n    return %s\n" % (name, ", ".join(args), call))
+            elif flavor == "gated":
+                self.pre.append("async def %s(%s):\n    await V.gate('cap', %d)\n    return %s\n" % (
+                    name, ", ".join(args), sid, call))
             elif flavor == "ret_coro":
                 self.pre.append("async def _%s(%s):\n    return %s\n\ndef %s(%s):\n    return _%s(%s)\n" % (
                     name, ", ".join(args), call, name, ", ".join(args), name, ", ".join(args)))
@@ -235,6 +241,8 @@ class Renderer:
             lines.append(bi + call)
             lines.append(bi + "return super().__new__(cls)")
         else:
+            if f.get("async"):
+                lines.append(bi + "await V.gate('body', %r)" % qual)
             lines.append(bi + "return " + call)
         return lines
 
